@@ -85,9 +85,8 @@ def gmmHeader (m : Msg) (iEpd iSht iType : Nat) (msgType : UInt8) (setSpare : Bo
 
 /-! ### the constructors -/
 
-/-- `GetRegistrationRequest` -/
-def registrationRequest (regType : UInt8) (mobileIdentity : Val) (requestedNSSAI ueSecurityCapability capability5GMM : Option Val)
-    (nasMessageContainer : Option Bytes) (uplinkDataStatus : Option Val) : Res Msg := do
+/-- `GetRegistrationRequest`, the statements that depend on the registration type only -/
+def registrationRequestBase (regType : UInt8) : Res Msg := do
   let L := layout_RegistrationRequest
   let m ← gmmHeader (initMsg L) idx_RegistrationRequest_ExtendedProtocolDiscriminator
     idx_RegistrationRequest_SpareHalfOctetAndSecurityHeaderType idx_RegistrationRequest_RegistrationRequestMessageIdentity 0x41 true
@@ -95,16 +94,23 @@ def registrationRequest (regType : UInt8) (mobileIdentity : Val) (requestedNSSAI
   let m ← updF m i (bits NasSet.NgksiAndRegistrationType5GS.SetTSC 0)
   let m ← updF m i (bits NasSet.NgksiAndRegistrationType5GS.SetNasKeySetIdentifiler 7)
   let m ← updF m i (bits NasSet.NgksiAndRegistrationType5GS.SetFOR 1)
-  let m ← updF m i (bits NasSet.NgksiAndRegistrationType5GS.SetRegistrationType5GS regType)
-  let m := m.set idx_RegistrationRequest_MobileIdentity5GS (some mobileIdentity)
-  let m := setP m idx_RegistrationRequest_UESecurityCapability ueSecurityCapability
-  let m := setP m idx_RegistrationRequest_Capability5GMM capability5GMM
-  let m := setP m idx_RegistrationRequest_RequestedNSSAI requestedNSSAI
-  let m := setP m idx_RegistrationRequest_UplinkDataStatus uplinkDataStatus
-  pure (match nasMessageContainer with
-    | some c => setP m idx_RegistrationRequest_NASMessageContainer
-        (some (bufIE sh_NASMessageContainer 0x71 65536 c NasSet.NASMessageContainer.SetNASMessageContainerContents))
-    | none => m)
+  updF m i (bits NasSet.NgksiAndRegistrationType5GS.SetRegistrationType5GS regType)
+
+/-- `GetRegistrationRequest` -/
+def registrationRequest (regType : UInt8) (mobileIdentity : Val) (requestedNSSAI ueSecurityCapability capability5GMM : Option Val)
+    (nasMessageContainer : Option Bytes) (uplinkDataStatus : Option Val) : Res Msg :=
+  match registrationRequestBase regType with
+  | .error e => .error e
+  | .ok m =>
+    let m := m.set idx_RegistrationRequest_MobileIdentity5GS (some mobileIdentity)
+    let m := setP m idx_RegistrationRequest_UESecurityCapability ueSecurityCapability
+    let m := setP m idx_RegistrationRequest_Capability5GMM capability5GMM
+    let m := setP m idx_RegistrationRequest_RequestedNSSAI requestedNSSAI
+    let m := setP m idx_RegistrationRequest_UplinkDataStatus uplinkDataStatus
+    .ok (match nasMessageContainer with
+      | some c => setP m idx_RegistrationRequest_NASMessageContainer
+          (some (bufIE sh_NASMessageContainer 0x71 65536 c NasSet.NASMessageContainer.SetNASMessageContainerContents))
+      | none => m)
 
 /-- the 5GSM header `EPD, PDU session ID, PTI, message type` -/
 def gsmHeader (m : Msg) (iEpd iPsi iPti iType : Nat) (psi pti msgType : UInt8) : Res Msg := do
@@ -237,32 +243,40 @@ def serviceRequest (serviceType : UInt8) : Res Msg := do
       setP m idx_ServiceRequest_UplinkDataStatus (some { iei := 0x40, len := 2, data := [0x00, 0x04] })
     else m)
 
-/-- `GetAuthenticationResponse` (`eap` = the octets `base64.StdEncoding.DecodeString(eapMsg)` yields) -/
-def authenticationResponse (param : Bytes) (eap : Bytes) : Res Msg := do
-  let L := layout_AuthenticationResponse
-  let m ← gmmHeader (initMsg L) idx_AuthenticationResponse_ExtendedProtocolDiscriminator
+def authenticationResponseBase : Res Msg :=
+  gmmHeader (initMsg layout_AuthenticationResponse) idx_AuthenticationResponse_ExtendedProtocolDiscriminator
     idx_AuthenticationResponse_SpareHalfOctetAndSecurityHeaderType idx_AuthenticationResponse_AuthenticationResponseMessageIdentity 0x57 true
-  if param.length > 0 then
-    -- copy(Octet[:], param[0:16]) panics when the slice is shorter than 16 (capacity = length for the emulator's RES*)
-    if param.length < 16 then .error .panic else
-    let v := setLen (param.length % 256) (newVal sh_AuthenticationResponseParameter 0x2D)
-    pure (setP m idx_AuthenticationResponse_AuthenticationResponseParameter (some { v with data := copyInto v.data (param.take 16) }))
-  else if eap.length > 0 then
-    pure (setP m idx_AuthenticationResponse_EAPMessage (some (bufIE sh_EAPMessage 0x78 65536 eap NasSet.EAPMessage.SetEAPMessage)))
-  else pure m
+
+/-- `GetAuthenticationResponse` (`eap` = the octets `base64.StdEncoding.DecodeString(eapMsg)` yields) -/
+def authenticationResponse (param : Bytes) (eap : Bytes) : Res Msg :=
+  match authenticationResponseBase with
+  | .error e => .error e
+  | .ok m =>
+    if param.length > 0 then
+      -- copy(Octet[:], param[0:16]) panics when the slice is shorter than 16 (capacity = length for the emulator's RES*)
+      if param.length < 16 then .error .panic else
+      let v := setLen (param.length % 256) (newVal sh_AuthenticationResponseParameter 0x2D)
+      .ok (setP m idx_AuthenticationResponse_AuthenticationResponseParameter (some { v with data := copyInto v.data (param.take 16) }))
+    else if eap.length > 0 then
+      .ok (setP m idx_AuthenticationResponse_EAPMessage (some (bufIE sh_EAPMessage 0x78 65536 eap NasSet.EAPMessage.SetEAPMessage)))
+    else .ok m
+
+def registrationCompleteBase : Res Msg :=
+  gmmHeader (initMsg layout_RegistrationComplete) idx_RegistrationComplete_ExtendedProtocolDiscriminator
+    idx_RegistrationComplete_SpareHalfOctetAndSecurityHeaderType idx_RegistrationComplete_RegistrationCompleteMessageIdentity 0x43 true
 
 /-- `GetRegistrationComplete` -/
-def registrationComplete (sor : Option Bytes) : Res Msg := do
-  let L := layout_RegistrationComplete
-  let m ← gmmHeader (initMsg L) idx_RegistrationComplete_ExtendedProtocolDiscriminator
-    idx_RegistrationComplete_SpareHalfOctetAndSecurityHeaderType idx_RegistrationComplete_RegistrationCompleteMessageIdentity 0x43 true
-  pure (match sor with
-    | some c => setP m idx_RegistrationComplete_SORTransparentContainer
-        (some (bufIE sh_SORTransparentContainer 0x73 65536 c NasSet.SORTransparentContainer.SetSORContent))
-    | none => m)
+def registrationComplete (sor : Option Bytes) : Res Msg :=
+  match registrationCompleteBase with
+  | .error e => .error e
+  | .ok m =>
+    .ok (match sor with
+      | some c => setP m idx_RegistrationComplete_SORTransparentContainer
+          (some (bufIE sh_SORTransparentContainer 0x73 65536 c NasSet.SORTransparentContainer.SetSORContent))
+      | none => m)
 
-/-- `GetSecurityModeComplete` -/
-def securityModeComplete (nasMessageContainer : Option Bytes) : Res Msg := do
+/-- `GetSecurityModeComplete` up to and including the IMEISV -/
+def securityModeCompleteBase : Res Msg := do
   let L := layout_SecurityModeComplete
   let m ← gmmHeader (initMsg L) idx_SecurityModeComplete_ExtendedProtocolDiscriminator
     idx_SecurityModeComplete_SpareHalfOctetAndSecurityHeaderType idx_SecurityModeComplete_SecurityModeCompleteMessageIdentity 0x5E true
@@ -272,14 +286,20 @@ def securityModeComplete (nasMessageContainer : Option Bytes) : Res Msg := do
   let v ← bits NasSet.IMEISV.SetIdentityDigit1 1 v
   let v ← bits NasSet.IMEISV.SetIdentityDigitP_1 1 v
   let v ← bits NasSet.IMEISV.SetIdentityDigitP 1 v
-  let m := setP m idx_SecurityModeComplete_IMEISV (some v)
-  pure (match nasMessageContainer with
-    | some c => setP m idx_SecurityModeComplete_NASMessageContainer
-        (some (bufIE sh_NASMessageContainer 0x71 65536 c NasSet.NASMessageContainer.SetNASMessageContainerContents))
-    | none => m)
+  pure (setP m idx_SecurityModeComplete_IMEISV (some v))
 
-/-- `GetDeregistrationRequest` -/
-def deregistrationRequest (accessType switchOff ngKsi : UInt8) (mobileIdentity : Val) : Res Msg := do
+/-- `GetSecurityModeComplete` -/
+def securityModeComplete (nasMessageContainer : Option Bytes) : Res Msg :=
+  match securityModeCompleteBase with
+  | .error e => .error e
+  | .ok m =>
+    .ok (match nasMessageContainer with
+      | some c => setP m idx_SecurityModeComplete_NASMessageContainer
+          (some (bufIE sh_NASMessageContainer 0x71 65536 c NasSet.NASMessageContainer.SetNASMessageContainerContents))
+      | none => m)
+
+/-- `GetDeregistrationRequest`, the statements before the mobile identity -/
+def deregistrationRequestBase (accessType switchOff ngKsi : UInt8) : Res Msg := do
   let L := layout_DeregistrationRequestUEOriginatingDeregistration
   let m ← gmmHeader (initMsg L) idx_DeregistrationRequestUEOriginatingDeregistration_ExtendedProtocolDiscriminator
     idx_DeregistrationRequestUEOriginatingDeregistration_SpareHalfOctetAndSecurityHeaderType
@@ -289,9 +309,15 @@ def deregistrationRequest (accessType switchOff ngKsi : UInt8) (mobileIdentity :
   let m ← updF m i (bits NasSet.NgksiAndDeregistrationType.SetSwitchOff switchOff)
   let m ← updF m i (bits NasSet.NgksiAndDeregistrationType.SetReRegistrationRequired 0)
   let m ← updF m i (bits NasSet.NgksiAndDeregistrationType.SetTSC ngKsi)
-  let m ← updF m i (bits NasSet.NgksiAndDeregistrationType.SetNasKeySetIdentifiler ngKsi)
-  -- SetLen(mi.GetLen()); SetMobileIdentity5GSContents(mi.GetMobileIdentity5GSContents())
-  updF m idx_DeregistrationRequestUEOriginatingDeregistration_MobileIdentity5GS (ok1 fun v =>
-    setContents NasSet.MobileIdentity5GS.SetMobileIdentity5GSContents mobileIdentity.data (setLenBuf mobileIdentity.len v))
+  updF m i (bits NasSet.NgksiAndDeregistrationType.SetNasKeySetIdentifiler ngKsi)
+
+/-- `GetDeregistrationRequest` -/
+def deregistrationRequest (accessType switchOff ngKsi : UInt8) (mobileIdentity : Val) : Res Msg :=
+  match deregistrationRequestBase accessType switchOff ngKsi with
+  | .error e => .error e
+  | .ok m =>
+    -- SetLen(mi.GetLen()); SetMobileIdentity5GSContents(mi.GetMobileIdentity5GSContents())
+    updF m idx_DeregistrationRequestUEOriginatingDeregistration_MobileIdentity5GS (ok1 fun v =>
+      setContents NasSet.MobileIdentity5GS.SetMobileIdentity5GSContents mobileIdentity.data (setLenBuf mobileIdentity.len v))
 
 end Stgutg.Nas.Ctor
